@@ -70,3 +70,386 @@ fn c13_optdens_m1() {
 fn c13_revdens_m1() {
     c13_rev::<1>();
 }
+
+// =====================================================================================
+// C04 / C09 — sketch step, densification, views
+// =====================================================================================
+//
+// Representation invariant before densification (holds for new/reinit, preserved by sketch):
+//   Inv:  nb_empty == #{k : !init[k]};  !init[k] => (hsketch[k], values[k]) == (u32::MAX as F, u64::MAX);
+//          init[k] => 0 <= hsketch[k] < 1
+use rand_chacha::oracle as cha;
+use rand_xoshiro::Xoshiro256PlusPlus as Xo;
+
+const LARGE: f64 = u32::MAX as f64;
+
+macro_rules! dens_common {
+    ($modname:ident, $ty:ident, $alias:ty) => {
+        pub(crate) mod $modname {
+            use super::*;
+
+            /// arbitrary pre-densification state satisfying Inv whose populated bins are exactly those of the
+            /// (concrete) bit mask: the population pattern is enumerated by harness instances, the contents
+            /// of the bins are symbolic.  Concrete patterns keep the densification control flow and the
+            /// oracle stream ids concrete (symbolic ones cost 5-7 M SAT variables per instance).
+            pub(crate) fn any_state<const M: usize>(mask: usize) -> $alias {
+                let mut s: $alias = $ty::new(M, BuildHasherDefault::<NoHashHasher>::default());
+                let mut ne: i64 = 0;
+                for k in 0..M {
+                    let i: bool = (mask >> k) & 1 == 1;
+                    s.init[k] = i;
+                    if i {
+                        let r = any_f64_in(0.0, 1.0);
+                        kani::assume(r < 1.0);
+                        s.hsketch[k] = r;
+                        s.values[k] = kani::any();
+                    } else {
+                        ne += 1;
+                    }
+                }
+                s.nb_empty = ne;
+                s
+            }
+
+            /// same, population pattern symbolic (cheap enough for the single-call step harness)
+            pub(crate) fn any_state_sym<const M: usize>() -> $alias {
+                let mut s: $alias = $ty::new(M, BuildHasherDefault::<NoHashHasher>::default());
+                let mut ne: i64 = 0;
+                for k in 0..M {
+                    let i: bool = kani::any();
+                    s.init[k] = i;
+                    if i {
+                        let r = any_f64_in(0.0, 1.0);
+                        kani::assume(r < 1.0);
+                        s.hsketch[k] = r;
+                        s.values[k] = kani::any();
+                    } else {
+                        ne += 1;
+                    }
+                }
+                s.nb_empty = ne;
+                s
+            }
+
+            pub(crate) fn inv<const M: usize>(s: &$alias) -> bool {
+                let mut ne: i64 = 0;
+                let mut ok = s.hsketch.len() == M && s.values.len() == M && s.init.len() == M;
+                for k in 0..M {
+                    if s.init[k] {
+                        ok = ok && s.hsketch[k] >= 0.0 && s.hsketch[k] < 1.0;
+                    } else {
+                        ne += 1;
+                        ok = ok && s.hsketch[k] == LARGE && s.values[k] == u64::MAX;
+                    }
+                }
+                ok && s.nb_empty == ne
+            }
+
+            /// one `sketch` call: the bin chosen by the item keeps the smaller r (ties: the later item),
+            /// every other bin is untouched, Inv kept; (r, bin) are the documented functions of the item's stream
+            pub(crate) fn step<const M: usize>() {
+                let mut s = any_state_sym::<M>();
+                let mut oh = [0f64; M];
+                let mut ov = [0u64; M];
+                let mut oi = [false; M];
+                for k in 0..M {
+                    oh[k] = s.hsketch[k];
+                    ov[k] = s.values[k];
+                    oi[k] = s.init[k];
+                }
+                let it: u64 = kani::any();
+                s.sketch(&it);
+                // reference from the same per-item stream; the stored hash is the hasher's output
+                let item = nohash(it);
+                let mut rng = Xo::seed_from_u64(item);
+                let r: f64 = Uniform::<f64>::new(0., 1.).unwrap().sample(&mut rng);
+                let kk: usize = Uniform::<usize>::new(0, M).unwrap().sample(&mut rng);
+                assert!(kk < M);
+                for k in 0..M {
+                    if k == kk && r <= oh[k] {
+                        assert!(s.hsketch[k] == r && s.values[k] == item && s.init[k]);
+                    } else {
+                        assert!(beq(s.hsketch[k], oh[k]) && s.values[k] == ov[k] && s.init[k] == oi[k]);
+                    }
+                    // min semantics: the bin holds the smaller of (old r, new r)
+                    if k == kk {
+                        assert!(s.hsketch[k] == if r < oh[k] { r } else { oh[k] });
+                    }
+                    // every stored hash is the old content or the streamed item
+                    assert!(s.values[k] == ov[k] || s.values[k] == item);
+                }
+                assert!(inv::<M>(&s));
+                kani::cover!(s.values[0] == item && oi[0] && ov[0] != item, "witness: a populated bin was overwritten");
+                kani::cover!(M > 1 && s.values[M - 1] == ov[M - 1] && kk == M - 1 && oi[M - 1], "witness: a populated bin resisted");
+            }
+
+            /// the three views after finishing.  The stored hashes range over base ^ (x << 8) ^ (y << 40) with
+            /// two symbolic bytes x, y per position (fully symbolic 64-bit inputs make the comparison of two
+            /// murmur3 multiplier chains a SAT-hard equivalence problem: 900 s timeout measured)
+            pub(crate) fn views<const M: usize>() {
+                let mut s = any_state::<M>((1 << M) - 1);
+                for k in 0..M {
+                    let x: u8 = kani::any();
+                    let y: u8 = kani::any();
+                    s.values[k] = 0x9e3779b97f4a7c15u64 ^ ((x as u64) << 8) ^ ((y as u64) << 40);
+                }
+                let f = s.get_hsketch();
+                let u = s.get_hsketch_u64();
+                let w = s.get_hsketch_u32();
+                assert!(f.len() == M && u.len() == M && w.len() == M);
+                for k in 0..M {
+                    assert!(beq(f[k], s.hsketch[k]));
+                    assert!(u[k] == s.values[k]);
+                    // the u32 view is one fixed function of the u64 view, the same at every position
+                    let e = murmur3_32(&mut Cursor::new(s.values[k].to_ne_bytes()), 127).unwrap();
+                    assert!(w[k] == e);
+                    if s.values[k] == s.values[0] {
+                        assert!(w[k] == w[0]);
+                    }
+                }
+                kani::cover!(M > 1 && s.values[1] == s.values[0], "witness: two positions hold the same hash");
+            }
+        }
+    };
+}
+dens_common!(optk, OptDensMinHash, Opt64);
+dens_common!(revk, RevOptDensMinHash, Rev64);
+
+/// OptDensMinHash::end_sketch from an arbitrary Inv-state with at least one populated bin.
+/// Checked for every generator output for which each empty bin finds a populated bin within the
+/// unwinding bound (harness runs with --no-unwinding-checks: longer searches are outside the claim).
+fn c09_opt_densify<const M: usize, const MASK: usize>() {
+    let mut s = optk::any_state::<M>(MASK);
+    let mut oh = [0f64; M];
+    let mut ov = [0u64; M];
+    let mut oi = [false; M];
+    for k in 0..M {
+        oh[k] = s.hsketch[k];
+        ov[k] = s.values[k];
+        oi[k] = s.init[k];
+    }
+    s.end_sketch();
+    assert!(s.nb_empty == 0);
+    for k in 0..M {
+        assert!(s.init[k]);
+        if oi[k] {
+            // populated bins are untouched, bit for bit
+            assert!(beq(s.hsketch[k], oh[k]) && s.values[k] == ov[k]);
+        } else {
+            // filled with the (value, hash) pair of a bin that was populated before
+            let mut found = false;
+            for j in 0..M {
+                if oi[j] && beq(s.hsketch[k], oh[j]) && s.values[k] == ov[j] {
+                    found = true;
+                }
+            }
+            assert!(found);
+        }
+    }
+    // the densification stream of a bin is keyed by the bin position only
+    // exactly the empty bins opened a stream, and its key is the bin position
+    let mut nexp = 0;
+    for k in 0..M {
+        let slot = cha::slot_of_seed(k as u64 + 123743);
+        if !oi[k] {
+            nexp += 1;
+            assert!(cha::is_used(slot) && cha::key_of(slot)[0] == k as u64 + 123743 && cha::kind_of(slot) == 112);
+        }
+    }
+    assert!(cha::nb_streams() == nexp);
+    // idempotent
+    let mut h2 = [0f64; M];
+    let mut v2 = [0u64; M];
+    for k in 0..M {
+        h2[k] = s.hsketch[k];
+        v2[k] = s.values[k];
+    }
+    s.end_sketch();
+    for k in 0..M {
+        assert!(beq(s.hsketch[k], h2[k]) && s.values[k] == v2[k] && s.init[k]);
+    }
+    assert!(s.nb_empty == 0);
+    kani::cover!(true, "witness: densification finished");
+}
+
+fn c09_rev_densify<const M: usize, const MASK: usize>() {
+    let mut s = revk::any_state::<M>(MASK);
+    let mut oh = [0f64; M];
+    let mut ov = [0u64; M];
+    let mut oi = [false; M];
+    for k in 0..M {
+        oh[k] = s.hsketch[k];
+        ov[k] = s.values[k];
+        oi[k] = s.init[k];
+    }
+    s.end_sketch();
+    assert!(s.nb_empty == 0);
+    for k in 0..M {
+        assert!(s.init[k]);
+        if oi[k] {
+            assert!(beq(s.hsketch[k], oh[k]) && s.values[k] == ov[k]);
+        } else {
+            let mut found = false;
+            for j in 0..M {
+                if oi[j] && beq(s.hsketch[k], oh[j]) && s.values[k] == ov[j] {
+                    found = true;
+                }
+            }
+            assert!(found);
+        }
+    }
+    // stream keys depend on (position, pass) only: (k+1)*m + pass + 253713 with pass >= 1
+    // every stream that was opened is keyed by (position, pass number) only: all seeds lie in the range of
+    // (k+1)*m + pass + 253713 for k < m, pass >= 1  (different (k, pass) may share a seed)
+    let lo = M as u64 + 1 + 253713;
+    let nfound = cha::count_seeds_in(lo, lo + 1000, 112);
+    assert!(cha::nb_streams() == nfound);
+    let mut h2 = [0f64; M];
+    let mut v2 = [0u64; M];
+    for k in 0..M {
+        h2[k] = s.hsketch[k];
+        v2[k] = s.values[k];
+    }
+    s.end_sketch();
+    for k in 0..M {
+        assert!(beq(s.hsketch[k], h2[k]) && s.values[k] == v2[k] && s.init[k]);
+    }
+    kani::cover!(true, "witness: densification finished");
+}
+
+/// sketch_slice(&[a, b]) == sketch(a); sketch(b); end_sketch()   (two fresh sketchers, shared oracle)
+macro_rules! c09_slice_eq {
+    ($fname:ident, $kmod:ident, $alias:ty) => {
+        fn $fname<const M: usize>() {
+            let mut x: $alias = <$alias>::new(M, BuildHasherDefault::<NoHashHasher>::default());
+            let mut y: $alias = <$alias>::new(M, BuildHasherDefault::<NoHashHasher>::default());
+            let items: [u64; 2] = kani::any();
+            let r = strip(x.sketch_slice(&items));
+            assert!(r.is_some());
+            y.sketch(&items[0]);
+            y.sketch(&items[1]);
+            y.end_sketch();
+            for k in 0..M {
+                assert!(beq(x.hsketch[k], y.hsketch[k]) && x.values[k] == y.values[k] && x.init[k] && y.init[k]);
+                assert!(x.values[k] == nohash(items[0]) || x.values[k] == nohash(items[1]));
+            }
+            assert!(x.nb_empty == 0 && y.nb_empty == 0);
+            kani::cover!(x.values[0] == nohash(items[1]) && items[0] != items[1], "witness");
+        }
+    };
+}
+c09_slice_eq!(c09_opt_slice, optk, Opt64);
+c09_slice_eq!(c09_rev_slice, revk, Rev64);
+
+/// nothing streamed: finishing must not hang.  With every bin empty the search loop has no exit, so
+/// on an unrepaired tree the cover after the call is unreachable for every generator output; on a
+/// repaired tree the call reports failure (panic / Err) without drawing anything.
+fn c09_opt_empty<const M: usize>(slice: bool) {
+    let mut s: Opt64 = OptDensMinHash::new(M, BuildHasherDefault::<NoHashHasher>::default());
+    if slice {
+        let e: [u64; 0] = [];
+        let r = strip(s.sketch_slice(&e));
+        assert!(r.is_none(), "an empty stream was 'finished' successfully");
+    } else {
+        s.end_sketch();
+        assert!(false, "end_sketch returned normally on an empty stream");
+    }
+    assert!(cha::nb_streams() == 0);
+    kani::cover!(true, "returned");
+}
+fn c09_rev_empty<const M: usize>(slice: bool) {
+    let mut s: Rev64 = RevOptDensMinHash::new(M, BuildHasherDefault::<NoHashHasher>::default());
+    if slice {
+        let e: [u64; 0] = [];
+        let r = strip(s.sketch_slice(&e));
+        assert!(r.is_none(), "an empty stream was 'finished' successfully");
+    } else {
+        s.end_sketch();
+        assert!(false, "end_sketch returned normally on an empty stream");
+    }
+    assert!(cha::nb_streams() == 0);
+    kani::cover!(true, "returned");
+}
+
+macro_rules! dproof {
+    ($name:ident, $unw:expr, $body:expr) => {
+        #[kani::proof]
+        #[kani::stub(std::backtrace::Backtrace::capture, crate::verif_common::no_backtrace)]
+        #[kani::unwind($unw)]
+        fn $name() {
+            $body
+        }
+    };
+}
+dproof!(c04_opt_step_m1, 4, optk::step::<1>());
+dproof!(c04_opt_step_m2, 5, optk::step::<2>());
+dproof!(c04_opt_step_m3, 6, optk::step::<3>());
+dproof!(c04_opt_step_m4, 7, optk::step::<4>());
+dproof!(c04_rev_step_m2, 5, revk::step::<2>());
+dproof!(c04_rev_step_m3, 6, revk::step::<3>());
+dproof!(c04_rev_step_m4, 7, revk::step::<4>());
+dproof!(c09_opt_views_m2, 12, optk::views::<2>());
+dproof!(c09_rev_views_m2, 12, revk::views::<2>());
+dproof!(c09_opt_densify_m1_p1, 4, c09_opt_densify::<1, 1>());
+dproof!(c09_opt_densify_m2_p1, 5, c09_opt_densify::<2, 1>());
+dproof!(c09_opt_densify_m2_p2, 5, c09_opt_densify::<2, 2>());
+dproof!(c09_opt_densify_m3_p1, 6, c09_opt_densify::<3, 1>());
+dproof!(c09_opt_densify_m3_p2, 6, c09_opt_densify::<3, 2>());
+dproof!(c09_opt_densify_m3_p3, 6, c09_opt_densify::<3, 3>());
+dproof!(c09_opt_densify_m3_p4, 6, c09_opt_densify::<3, 4>());
+dproof!(c09_opt_densify_m3_p5, 6, c09_opt_densify::<3, 5>());
+dproof!(c09_opt_densify_m3_p6, 6, c09_opt_densify::<3, 6>());
+dproof!(c09_opt_densify_m4_p1, 7, c09_opt_densify::<4, 1>());
+dproof!(c09_opt_densify_m4_p2, 7, c09_opt_densify::<4, 2>());
+dproof!(c09_opt_densify_m4_p3, 7, c09_opt_densify::<4, 3>());
+dproof!(c09_opt_densify_m4_p4, 7, c09_opt_densify::<4, 4>());
+dproof!(c09_opt_densify_m4_p5, 7, c09_opt_densify::<4, 5>());
+dproof!(c09_opt_densify_m4_p6, 7, c09_opt_densify::<4, 6>());
+dproof!(c09_opt_densify_m4_p7, 7, c09_opt_densify::<4, 7>());
+dproof!(c09_opt_densify_m4_p8, 7, c09_opt_densify::<4, 8>());
+dproof!(c09_opt_densify_m4_p9, 7, c09_opt_densify::<4, 9>());
+dproof!(c09_opt_densify_m4_p10, 7, c09_opt_densify::<4, 10>());
+dproof!(c09_opt_densify_m4_p11, 7, c09_opt_densify::<4, 11>());
+dproof!(c09_opt_densify_m4_p12, 7, c09_opt_densify::<4, 12>());
+dproof!(c09_opt_densify_m4_p13, 7, c09_opt_densify::<4, 13>());
+dproof!(c09_opt_densify_m4_p14, 7, c09_opt_densify::<4, 14>());
+dproof!(c09_rev_densify_m1_p1, 5, c09_rev_densify::<1, 1>());
+dproof!(c09_rev_densify_m2_p1, 6, c09_rev_densify::<2, 1>());
+dproof!(c09_rev_densify_m2_p2, 6, c09_rev_densify::<2, 2>());
+dproof!(c09_rev_densify_m3_p1, 7, c09_rev_densify::<3, 1>());
+dproof!(c09_rev_densify_m3_p2, 7, c09_rev_densify::<3, 2>());
+dproof!(c09_rev_densify_m3_p3, 7, c09_rev_densify::<3, 3>());
+dproof!(c09_rev_densify_m3_p4, 7, c09_rev_densify::<3, 4>());
+dproof!(c09_rev_densify_m3_p5, 7, c09_rev_densify::<3, 5>());
+dproof!(c09_rev_densify_m3_p6, 7, c09_rev_densify::<3, 6>());
+dproof!(c09_opt_slice_m2, 5, c09_opt_slice::<2>());
+dproof!(c09_opt_slice_m3, 6, c09_opt_slice::<3>());
+dproof!(c09_rev_slice_m2, 5, c09_rev_slice::<2>());
+dproof!(c09_rev_slice_m3, 6, c09_rev_slice::<3>());
+
+#[kani::proof]
+#[kani::stub(std::backtrace::Backtrace::capture, crate::verif_common::no_backtrace)]
+#[kani::unwind(8)]
+#[kani::should_panic]
+fn c09_opt_empty_end_m2() {
+    c09_opt_empty::<2>(false);
+}
+#[kani::proof]
+#[kani::stub(std::backtrace::Backtrace::capture, crate::verif_common::no_backtrace)]
+#[kani::unwind(8)]
+fn c09_opt_empty_slice_m2() {
+    c09_opt_empty::<2>(true);
+}
+#[kani::proof]
+#[kani::stub(std::backtrace::Backtrace::capture, crate::verif_common::no_backtrace)]
+#[kani::unwind(8)]
+#[kani::should_panic]
+fn c09_rev_empty_end_m2() {
+    c09_rev_empty::<2>(false);
+}
+#[kani::proof]
+#[kani::stub(std::backtrace::Backtrace::capture, crate::verif_common::no_backtrace)]
+#[kani::unwind(8)]
+fn c09_rev_empty_slice_m2() {
+    c09_rev_empty::<2>(true);
+}
